@@ -184,6 +184,7 @@ def _job(args):
 
 
 def run(ctx: Ctx):
+    rules.MEMBER_SPELLING = True
     n = 160 if ctx.quick else 4000
     per = 10
     jobs = [(ctx.rng.randrange(1 << 30), per) for _ in range(n // per)]
